@@ -803,7 +803,8 @@ class EventGenerator:
         for key, val in value.attributes.items():
             yield XmlWriterEvent.ATTR, key, val
 
-        yield XmlWriterEvent.DATA, value.text
+        # No text is no data, an explicit xsi:nil attribute must survive
+        yield XmlWriterEvent.DATA, value.text or None
 
         for child in value.children:
             yield from self.convert_any_type(child, var, namespace)
